@@ -148,6 +148,10 @@ type fnTrans struct {
 	usedAxioms    map[string]bool
 	optAxioms     map[string]Term
 	seqViews      map[string]Term
+	ghostParams   []bound
+	allowed       map[string][]Term
+	allowedAll    bool
+	allowedDone   bool
 	seqFacts      []Term
 	curUses       []Term
 }
@@ -962,9 +966,9 @@ func (t *fnTrans) cellByName(name string, at *ssa.BasicBlock) (*ssa.Alloc, bool)
 }
 
 func (t *fnTrans) entryEnv(st *State) *Env {
-	e := &Env{t: t, st: st, old: t.entrySt, vars: map[string]bound{}}
+	e := &Env{t: t, st: st, old: t.entrySt, vars: map[string]bound{}, prm: map[string]bound{}}
 	for n, v := range t.params {
-		e.vars[n] = bound{v, t.paramTy[n]}
+		e.prm[n] = bound{v, t.paramTy[n]}
 	}
 	e.pkg = t.fn.Pkg.Pkg
 	return e
@@ -1027,6 +1031,7 @@ func (t *fnTrans) pass() {
 	t.usedContracts, t.usedLocks = map[string]*FuncContract{}, map[string]bool{}
 	t.axiomTerms, t.extraQueries, t.usedAxioms, t.optAxioms = nil, nil, nil, map[string]Term{}
 	t.seqViews, t.seqFacts = nil, nil
+	t.allowedDone, t.allowed, t.allowedAll = false, nil, false
 	t.S.decls, t.S.declared, t.S.axioms = nil, map[string]bool{}, nil
 	t.S.strLits, t.S.strOrder = map[string]string{}, nil
 	fn := t.fn
@@ -1062,6 +1067,22 @@ func (t *fnTrans) pass() {
 			t.paramTy[names[i]] = p.Type()
 		}
 		t.inputs[n] = "parameter " + p.Name() + " " + p.Type().String()
+	}
+	t.ghostParams = nil
+	if t.fc != nil {
+		for _, g := range t.fc.Ghosts {
+			ty := t.eng.resolveType(g.Type, fn.Pkg.Pkg)
+			if ty == nil {
+				t.errorf("ghostparam %s: unknown type %s", g.Name, g.Type)
+				continue
+			}
+			n := "gp_" + sanitize(g.Name)
+			t.declare(n, t.S.sortOf(ty))
+			t.define(t.wf(n, ty))
+			t.params[g.Name] = Val{T: n}
+			t.paramTy[g.Name] = ty
+			t.ghostParams = append(t.ghostParams, bound{Val{T: n}, ty})
+		}
 	}
 	for _, fv := range fn.FreeVars {
 		// free variables are pointers to captured variables
@@ -1237,10 +1258,20 @@ func (t *fnTrans) block(b *ssa.BasicBlock) {
 
 // loopEdge: invariant obligations when control enters (or re-enters) a loop header from b.
 func (t *fnTrans) loopEdge(b *ssa.BasicBlock, si int, li *loopInfo, back bool) {
+	cond := t.edgeCondLocal(b, si)
+	if back {
+		h := li.header.Index
+		for _, name := range sortedKeys(t.vars) {
+			if t.loopMod[h][name] || (t.loopModAll[h] && t.vars[name].Heap) {
+				if c := t.frameCond(name, t.cur); c != "" {
+					t.oblige("invariant", fmt.Sprintf("loop%d.frame.%s", li.ordinal, name), "frame of the function holds after each iteration ("+name+")", fmt.Sprintf("(=> %s %s)", cond, c), b.Instrs[len(b.Instrs)-1].Pos())
+				}
+			}
+		}
+	}
 	if li.spec == nil {
 		return
 	}
-	cond := t.edgeCondLocal(b, si)
 	env := t.localEnv(t.cur, li.header)
 	which := "entry"
 	if back {
@@ -1299,6 +1330,14 @@ func (t *fnTrans) loopHead(li *loopInfo) {
 				if sv.Typ != nil {
 					t.assume(t.wf(nv, sv.Typ))
 				}
+			}
+		}
+	}
+	// the function's frame is an implicit invariant of every loop (checked on each edge into the header)
+	for _, name := range sortedKeys(t.vars) {
+		if mods[name] || (all && t.vars[name].Heap) {
+			if c := t.frameCond(name, t.cur); c != "" {
+				t.assume(c)
 			}
 		}
 	}
